@@ -617,7 +617,10 @@ struct World : CallbackSink, Sink
 		nBlockedLater(0), nRewriteSeen(0), nQueuedObserved(0), nCutSuppressing(0), nCondTrue(0), nCondFalse(0), nAdapter(0) {}
 
 	void log(const std::string & s) { oplog("[" + num((long long)stack.size()) + "] " + s); trace.add(s); }
-	void fail(const std::string & key, const std::string & desc) {
+	void fail(const std::string & key0, const std::string & desc) {
+		// configuration 11 = a mixin without mixinBeforeDispatch listed BEFORE MixinFilter: the key names that shape, so that
+		// the known finding recorded for it cannot hide the same symptom in any other configuration
+		const std::string key = cfg == 11 ? key0 + ":interceptor-less-mixin-listed-before-MixinFilter" : key0;
 		violation(key, desc);
 		oplog("[" + num((long long)stack.size()) + "] !! " + key + " :: " + desc);
 		dead = true;
